@@ -5,7 +5,7 @@ import vlib
 LAYERS_QUICK = {"traversal": dict(MaxLen=4, Depths="{1,2,3,4,5}", Segs="{1,2,3,4,5}"),
                 "options": dict(MaxLen=4, Depths="{2,5}", Segs="{1,3}"),
                 "entries": dict(MaxLen=3, Depths="{1,2,4}", Segs="{1,2}")}
-LAYERS_THOROUGH = {"traversal": dict(MaxLen=6, Depths="{1,2,3,4,5,6,7}", Segs="{1,2,3,4,5,6,7}"),
+LAYERS_THOROUGH = {"traversal": dict(MaxLen=5, Depths="{1,2,3,4,5,6}", Segs="{1,2,3,4,5,6}"),
                    "options": dict(MaxLen=5, Depths="{1,3,6}", Segs="{1,2,6}"),
                    "entries": dict(MaxLen=5, Depths="{1,2,4,6}", Segs="{1,2,6}")}
 
@@ -21,7 +21,7 @@ def run(tier, seed, replay=None):
         raise vlib.Infra("off-by-one variant of the segment loop is no longer refuted")
     shutil.rmtree(bug.workdir, ignore_errors=True)
     jobs = [(name, dict(module="ChainSync", cfg=(name + ".cfg", vlib.cfg_text(dict(c, Layer='"%s"' % name, EXPORT=True, BUG='"none"'), ["Done", "ExportCase"])),
-                        workers=max(2, vlib.NCPU // 3), timeout=14000, tag="c01" + name)) for name, c in layers.items()]
+                        workers=max(2, vlib.NCPU // 3), timeout=14000, tag="c01" + name, extra=["-maxSetSize", "8000000"])) for name, c in layers.items()]
     res = vlib.tlc_parallel(jobs)
     for name, c in layers.items():
         r = res[name]
